@@ -12,6 +12,7 @@ set <k> <v> ok|panic                   Tree.Set
 get <k> <val>|panic                    Tree.Get
 del <ts>                               Tree.DeleteBelow
 iter <n> (<k> <v> <r>)*                Tree.IterateKV: the pairs handed to the callback, in order, and its answers
+iterpart (<k> <v> <r>)*                … a long list may be sent in pieces before its `iter <n>`
 reset                                  Tree.Reset
 stats <leafKeys> <numPages> <pagesFree> <allocated> <bytes>
 walk <nextPage> <freePage> <nfree> <free…>     canonical walk: allocator part
@@ -29,6 +30,7 @@ structure St where
   t : Option Tree := none
   pending : Option (List WalkNode) := none     -- nodes of the walk being compared
   seen : Nat := 0
+  iterAcc : Array (Key × Val × Val) := #[]     -- triples of `iterpart` records awaiting their `iter`
 
 def kvs? : List String → Option (List (Key × Val))
   | [] => some []
@@ -115,9 +117,15 @@ def step (st : St) (_n : Nat) (ws : List String) : Except String (St × Nat) :=
         match u64? ts with
         | some ts => settle st (deleteBelow t ts) s!"DeleteBelow({ts.toNat})"
         | none => .error "bad del"
+      | "iterpart" :: rest =>
+        match triples? rest with
+        | some tr => .ok ({ st with iterAcc := st.iterAcc ++ tr.toArray }, 0)
+        | none => .error "bad iterpart"
       | "iter" :: n :: rest =>
         match nat? n, triples? rest with
-        | some n, some tr =>
+        | some n, some tr0 =>
+          let tr := st.iterAcc.toList ++ tr0
+          let st := { st with iterAcc := #[] }
           if tr.length != n then .error "bad iter count" else
           let vis := visits t
           let obs := tr.map fun x => (x.1, x.2.1)
